@@ -65,9 +65,10 @@ def rule_a(ctx):
     if alloc is None:
         raise AnalysisError('C13.a: StreamControl.allocate_stream vanished')
     ret_attrs = set()
-    for n in walk_local(alloc.node):
-        if isinstance(n, ast.Return) and isinstance(n.value, ast.Attribute) and isinstance(n.value.value, ast.Name):
-            ret_attrs.add(n.value.attr)
+    from ..astutil import returned_exprs
+    for v in returned_exprs(alloc.node):
+        if isinstance(v, ast.Attribute) and isinstance(v.value, ast.Name):
+            ret_attrs.add(v.attr)
     if len(ret_attrs) != 1:
         raise AnalysisError('C13.a: cannot identify the id cursor (allocate_stream returns %s)' % ret_attrs)
     cur = ret_attrs.pop()
